@@ -24,7 +24,7 @@ import (
 // C11 — graceful shutdown finishes in-flight work, admits nothing new, leaks nothing.
 
 type c11Client struct {
-	Kind    string `json:"kind"` // idle | served-then-idle | slow-origin | mid-head | tunnel | slow-reader | late-request | late-connect | vanish
+	Kind    string `json:"kind"`     // idle | served-then-idle | slow-origin | mid-head | tunnel | slow-reader | late-request | late-connect | vanish
 	DelayMs int    `json:"delay_ms"` // origin latency for slow-origin
 	Body    int    `json:"body"`
 	K       int    `json:"k"`
@@ -74,17 +74,17 @@ type c11OriginLog struct {
 }
 
 type c11Result struct {
-	kind        string
-	reqSentAt   time.Duration // first byte of the (relevant) request written
-	reqSentSeq  int
-	respDone    bool
-	respErr     error
-	status      int
-	bodyLen     int
-	closedAt    time.Duration // proxy closed the connection (EOF/RST seen), -1 never
-	gotBytes    int           // bytes received at all (late-connect)
-	dialErr     error
-	note        string
+	kind       string
+	reqSentAt  time.Duration // first byte of the (relevant) request written
+	reqSentSeq int
+	respDone   bool
+	respErr    error
+	status     int
+	bodyLen    int
+	closedAt   time.Duration // proxy closed the connection (EOF/RST seen), -1 never
+	gotBytes   int           // bytes received at all (late-connect)
+	dialErr    error
+	note       string
 }
 
 func runC11(env *core.Env, ci any) {
@@ -509,9 +509,9 @@ func init() {
 			}
 			return sb.String()
 		},
-		Real: append([]string{"HTTPProxy.Run / run loop, martian.Proxy.Shutdown / Close / Serve / handleLoop, closing() checks, listener and dialer metrics"}, realForwarder...),
-		Stub: stubCommon,
-		Rule: "1-6 client connections in drawn phases when the shutdown request fires (idle, served then idle, request at an origin with latency 0-120 s, head half sent, tunnel copying, response backed up against a slow reader, client vanishing, request sent on an idle connection after shutdown began, connection opened after shutdown began) on a plain or TLS listener with large or tiny link capacity; the shutdown request is a scheduler event that may fire at any step after its earliest time. History oracle over (origin log, shutdown event, Run return) with global sequence numbers + socket ledger + listener_cx_active. Non-trivial = Run returned and all clients were judged.",
+		Real:        append([]string{"HTTPProxy.Run / run loop, martian.Proxy.Shutdown / Close / Serve / handleLoop, closing() checks, listener and dialer metrics"}, realForwarder...),
+		Stub:        stubCommon,
+		Rule:        "1-6 client connections in drawn phases when the shutdown request fires (idle, served then idle, request at an origin with latency 0-120 s, head half sent, tunnel copying, response backed up against a slow reader, client vanishing, request sent on an idle connection after shutdown began, connection opened after shutdown began) on a plain or TLS listener with large or tiny link capacity; the shutdown request is a scheduler event that may fire at any step after its earliest time. History oracle over (origin log, shutdown event, Run return) with global sequence numbers + socket ledger + listener_cx_active. Non-trivial = Run returned and all clients were judged.",
 		Assumptions: []string{"an exchange is 'in flight' for rule (a) when the scripted origin logged its request before the shutdown event and answers within 20 s (the drain limit is 30 s)"},
 	})
 }
